@@ -63,6 +63,7 @@ class Stack:
         self.next_h = 0
         self.requests = {}       # q -> aiocoap Request
         self.resolving = []      # futures of pending (slow) determine_remote calls
+        self.resolving_q = {}    # ... by request label
         stack = self
         class Site(interfaces.Resource):
             async def needs_blockwise_assembly(self, request): return False
@@ -75,7 +76,8 @@ class Stack:
             async def determine_remote(self, m):
                 r = getattr(m, "remote", None)
                 if isinstance(r, simnet.Addr) and getattr(r, "unresolved", False):
-                    f = loop.create_future(); stack.resolving.append(f); await f     # name resolution in progress
+                    f = loop.create_future(); stack.resolving.append(f); stack.resolving_q[getattr(r, "q", None)] = f
+                    await f                                                # name resolution in progress
                     a = simnet.Addr(r.name); return a
                 return None
             async def shutdown(self):
@@ -105,7 +107,7 @@ class Stack:
                     m = Message(code=cmd[1])
                     if cmd[3] is not None: m.opt.observe = cmd[3]
                     pipe.add_response(m, is_last=cmd[2])
-                    if cmd[2]: return
+                    if cmd[2] and not cmd[4]: return                 # cmd[4]: keeps awaiting after its last response
                 elif cmd[0] == "raise":
                     from aiocoap import error
                     raise (error.NotFound() if cmd[1] == "NotFound" else RuntimeError("handler failed"))
@@ -125,7 +127,7 @@ class Stack:
         m = Message(code=GET, _mtype=mtype)
         if observe: m.opt.observe = 0
         m.remote = simnet.Addr(rname)
-        if unresolved: m.remote.unresolved = True
+        if unresolved: m.remote.unresolved = True; m.remote.q = q
         with self.loop.enter():
             r = self.ctx.request(m, handle_blockwise=False)
             self.requests[q] = r
@@ -139,6 +141,12 @@ class Stack:
             if r.observation is not None:
                 r.observation.register_callback(lambda resp, q=q: self.log.append(["notif", q, int(resp.code), resp.opt.observe]), _suppress_deprecation=True)
                 r.observation.register_errback(lambda e, q=q: self.log.append(["obsend", q, errname(e)]), _suppress_deprecation=True)
+        self.loop.drain()
+
+    def resolve(self, q):
+        f = self.resolving_q.get(q)
+        if f is not None and not f.done():
+            with self.loop.enter(): f.set_result(None)
         self.loop.drain()
 
     def cancel(self, q):
@@ -305,8 +313,10 @@ class Sim:
             if own: self._run_until(stop_at=own[0])
         elif k == "adv": self._run_until(target=self.loop.now_us() + ev[1])
         elif k == "req": A.request(ev[1], ev[2], ev[3], ev[4])
+        elif k == "reqslow": A.request(ev[1], ev[2], ev[3], ev[4], unresolved=True)
+        elif k == "resolve": A.resolve(ev[1])
         elif k == "cancel": A.cancel(ev[1])
-        elif k == "respond": A.handler_cmd(ev[1], ("respond", ev[2], ev[3], ev[4]))
+        elif k == "respond": A.handler_cmd(ev[1], ("respond", ev[2], ev[3], ev[4], bool(ev[5]) if len(ev) > 5 else False))
         elif k == "raise": A.handler_cmd(ev[1], ("raise", ev[2]))
         elif k == "err": A.transport_error(ev[1])
         elif k == "shutdown":
@@ -365,7 +375,9 @@ def g_event(ev):
     if k == "adv": return "Advance %s" % gz(ev[1])
     if k == "req": return "ClientRequest %s %s %s %s" % (gz(ev[1]), gz(RNAMES[ev[2]]), g_mtype(ev[3]), gbool(ev[4]))
     if k == "cancel": return "ClientCancel %s" % gz(ev[1])
-    if k == "respond": return "HandlerRespond %s %s %s %s" % (gz(ev[1]), gz(ev[2]), gbool(ev[3]), gopt(ev[4], gz))
+    if k == "respond": return "HandlerRespond %s %s %s %s %s" % (gz(ev[1]), gz(ev[2]), gbool(ev[3]), gopt(ev[4], gz), gbool(bool(ev[5]) if len(ev) > 5 else False))
+    if k == "reqslow": return "ClientRequestSlow %s %s %s %s" % (gz(ev[1]), gz(RNAMES[ev[2]]), g_mtype(ev[3]), gbool(ev[4]))
+    if k == "resolve": return "Resolved %s" % gz(ev[1])
     if k == "raise": return "HandlerRaise %s %s" % (gz(ev[1]), gz(RAISE_CODES[ev[2]]))
     if k == "err": return "TransportError %s" % gz(RNAMES[ev[1]])
     if k == "shutdown": return "Shutdown"
@@ -400,6 +412,8 @@ class Walk:
         self.reqs = {}          # q -> dict(r, tok, observe, seq)
         self.nq = 0; self.ntok = base.get("tok0", 0)
         self.handlers = {}      # h -> (r, tok)
+        self.slow = {}          # q -> request still looking for its remote
+        self.slow_ever = set()
         self.peer_mid = {"p1": 100, "p2": 200, "p3": 300}
         self.peer_reqs = []     # earlier requests of the peer (for duplicates)
         self.down = False
@@ -414,9 +428,18 @@ class Walk:
     def ev_request(self):
         rng = self.rng; self.nq += 1; q = self.nq
         r = rng.choice(["p1", "p1", "p2", "p3"]); obs = rng.random() < 0.4
+        if rng.random() < 0.15:                                   # the remote still has to be looked up
+            self.slow[q] = {"r": r, "observe": obs}; self.slow_ever.add(q)
+            return ["reqslow", q, r, rng.choice([CON, CON, NON]), obs]
         if not self.down:
             self.ntok += 1; self.reqs[q] = {"r": r, "tok": self.ntok, "observe": obs, "seq": rng.choice([0, 5, 2**24 - 3])}
         return ["req", q, r, rng.choice([CON, CON, NON]), obs]
+    def ev_resolve(self):
+        if not self.slow: return None
+        q = self.rng.choice(sorted(self.slow)); d = self.slow.pop(q)
+        if not self.down:
+            self.ntok += 1; self.reqs[q] = {"r": d["r"], "tok": self.ntok, "observe": d["observe"], "seq": self.rng.choice([0, 5, 2**24 - 3])}
+        return ["resolve", q]
     def ev_peer_response(self):
         rng = self.rng
         if not self.reqs: return None
@@ -463,19 +486,22 @@ class Walk:
         x = rng.random()
         if x < 0.15: return ["raise", h, rng.choice(["NotFound", "RuntimeError"])]
         last = rng.random() < 0.5
-        return ["respond", h, rng.choice([CONTENT, CONTENT, NOT_FOUND]), last, None if last and rng.random() < 0.6 else rng.randint(1, 50)]
+        return ["respond", h, rng.choice([CONTENT, CONTENT, NOT_FOUND]), last, None if last and rng.random() < 0.6 else rng.randint(1, 50), last and rng.random() < 0.4]
     def ev_time(self):
         rng = self.rng
         return rng.choice([["fire"], ["fire"], ["adv", rng.choice([1, 50_000, 99_999, 100_000, 100_001, 1_000_000, 1_999_999, 2_000_000, 3_000_000, 30_000_000, 128_000_001, 247_000_000])]])
     def ev_misc(self):
         rng = self.rng
-        if rng.random() < 0.5 and self.nq: return ["cancel", rng.randint(1, self.nq)]
+        if rng.random() < 0.5 and self.nq:
+            q = rng.randint(1, self.nq)
+            if q in self.slow_ever: return None          # cancelling a request during its remote lookup is not modelled
+            return ["cancel", q]
         return ["err", rng.choice(["p1", "p2", "p3"])]
     def busy_step(self):
         rng = self.rng
         for _ in range(20):
-            f = rng.choices([self.ev_request, self.ev_peer_response, self.ev_ack, self.ev_peer_request, self.ev_peer_other, self.ev_handler, self.ev_time, self.ev_misc],
-                            [5, 5, 3, 5, 1.5, 4, 4, 1])[0]
+            f = rng.choices([self.ev_request, self.ev_peer_response, self.ev_ack, self.ev_peer_request, self.ev_peer_other, self.ev_handler, self.ev_time, self.ev_misc, self.ev_resolve],
+                            [5, 5, 3, 5, 1.5, 4, 4, 1, 1])[0]
             ev = f()
             if ev is not None: return self.do(ev)
     def shutdown_and_after(self, n_after):
@@ -486,9 +512,13 @@ class Walk:
             if x < 0.45: self.do(["fire"])
             elif x < 0.6 and self.handlers: self.do(self.ev_handler())
             elif x < 0.72: self.do(self.ev_request())
-            elif x < 0.8: self.do(self.ev_misc())
+            elif x < 0.8: self.do(self.ev_misc() or ["err", "p1"])
+            elif x < 0.86 and self.slow: self.do(self.ev_resolve())
             else: self.do(self.ev_time())
         for h in sorted(self.handlers): self.do(["respond", h, CONTENT, True, None])       # every handler completes late
+        for q in sorted(self.slow):
+            if rng.random() < 0.7: self.do(["resolve", q])                                  # the lookup returns late (or never)
+        self.slow = {}
         self.do(self.ev_request())
         for _ in range(len(self.sim.own_timers())): self.do(["fire"])
         self.do(["adv", 300_000_000])
@@ -499,12 +529,19 @@ def epilogue(prefix_rest, handlers, nq):
     come from the (closed) transport, then late completion of every handler, a fresh request, all timers, 300 s"""
     out = [e for e in prefix_rest if e[0] not in ("recv", "shutdown")]
     out += [["respond", h, CONTENT, True, None] for h in handlers]
+    out += [["reqslow", nq + 3, "p3", CON, True], ["resolve", nq + 3]]
     out += [["req", nq + 1, "p1", CON, True], ["req", nq + 2, "p2", NON, False], ["err", "p1"]]
     out += [["fire"]] * 12 + [["adv", 300_000_000], ["fire"]]
     return out
 
 # busy scenario templates (mid0 = 0, tok0 = 0: own tokens are 1,2,..., own message ids 0,1,...)
 TEMPLATES = {
+    "name_resolution_in_progress": [
+        ["reqslow", 1, "p1", CON, False], ["req", 2, "p1", CON, True], ["reqslow", 3, "p2", NON, True], ["resolve", 1], ["reqslow", 4, "p1", CON, True],
+        ["recv", "p1", ACK, CONTENT, 0, 1, 3], ["resolve", 3], ["adv", 2_000_000], ["reqslow", 5, "p3", CON, False]],
+    "handlers_lingering_after_last_response": [
+        ["recv", "p1", CON, GET, 100, 7, None], ["recv", "p2", NON, GET, 200, 8, 0], ["respond", 0, CONTENT, True, None, True], ["respond", 1, CONTENT, False, 1],
+        ["recv", "p1", CON, GET, 101, 9, None], ["adv", 100_000], ["respond", 2, CONTENT, True, None, True], ["respond", 1, NOT_FOUND, True, None, True]],
     "awaiting_ack_and_backlog": [
         ["req", 1, "p1", CON, False], ["req", 2, "p1", CON, False], ["req", 3, "p1", NON, False], ["req", 4, "p2", CON, True],
         ["fire"], ["req", 5, "p1", CON, True], ["adv", 1_000_000], ["recv", "p1", ACK, 0, 0, 0, None], ["fire"], ["fire"]],
@@ -673,7 +710,7 @@ TWO_TEMPLATE = [["get_big"], ["put_sink"], ["observe"], ["get_slow"], ["pump"], 
 def template_cases(name):
     """shutdown inserted at every position of a busy template"""
     T = TEMPLATES[name]
-    nq = max([e[1] for e in T if e[0] == "req"] + [0])
+    nq = max([e[1] for e in T if e[0] in ("req", "reqslow")] + [0])
     nh = sum(1 for e in T if e[0] == "recv" and 1 <= e[3] < 32 and e[2] in (CON, NON))
     for k in range(len(T) + 1):
         yield {"uniform": 2_000_000, "mid0": 0, "tok0": 0, "template": name, "position": k,
@@ -685,7 +722,7 @@ class C18(fw.Property):
     coq_props = "Props/C18.v"
     gen_jobs = []
     model_imports = ["Verif.Model.C18"]
-    quick_budget = 330
+    quick_budget = 420
     thorough_budget = 6000
     design_ref = "DESIGN.md section 15 (C18)"
     technique = ("Coq invariant proofs over an executable model of the shutdown slice of the message layer (TokenManager, MessageManager, "
@@ -699,18 +736,26 @@ class C18(fw.Property):
                   "The model is tied to the code by running both on the same event scripts (shutdown at every position of busy templates + random walks generated against the live stack).")
     level_note = ("Runtime partial: SHUTDOWN_TIMEOUT of asyncio.wait is exercised by the oracle only (hung-transport scenario), garbage collection and real sockets after close() are outside the model. "
                   "Datagrams delivered to dispatch_message after shutdown are out of scope (udp6 closes its socket synchronously inside shutdown); a second Context.shutdown() is out of scope. "
-                  "A running handler is identified with its incoming_requests entry by the model. "
+                  "A running handler is identified with its incoming_requests entry by the model (a handler lingering after its last response is cancelled by the end of its pipe: modelled and driven). "
+                  "Open finding C18:resolving-request-left-hanging: a request still inside Context.find_remote_and_interface at shutdown is not failed (modelled faithfully: ClientRequestSlow/Resolved; refutation witness proved). "
+                  "C18_contexts_independent_* restate the definition of the two-context product. "
                   "Model abstractions: header-level messages, no multicast, no No-Response, default transport tuning, exceptions not propagated beyond the raising callback.")
     rule = ("script stream: an event script (peer datagram / fire next timer / advance clock / client request / cancel / handler respond or raise / transport error / shutdown) is run on the real "
             "Context+TokenManager+MessageManager over harness/simloop.py and on Model/C18.run; per step the datagrams on the wire (in order) and the application-visible outcomes are compared. "
             "Templates: 8 busy scenarios x shutdown at every position; walks: random histories generated against the live stack (peer answers what is really on the wire), shutdown at a random position, "
-            "then timers, late handler completions, late requests. twoctx stream (oracle only): real client (BlockwiseRequest, observations) and real resource.Site server over a lossy wire. "
+            "then timers, late handler completions, late requests; ~15 % of the requests are submitted while their remote still has to be looked up (reqslow / resolve events, resolved before, after or never), "
+            "handlers may keep awaiting after their last response. hung stream (oracle only): templates and ~15 % of the walks with a transport that never finishes closing. outofscope stream (model compared, "
+            "no property oracle): datagrams after shutdown and a second shutdown, which the property does not quantify over. twoctx stream (oracle only): real client (BlockwiseRequest, observations) and real resource.Site server over a lossy wire. "
             "Non-trivial = at shutdown something was outstanding (request, observation, handler, retransmission or empty-ACK timer, backlog, dedup entry); distinct by full input.")
     trusted_base = ["hand-written Model/C18.v (validated by the script stream on every run)",
                     "harness/simloop.py virtual-time loop (ideal timers, FIFO ready queue), harness/simnet.py fake transport",
                     "scripted application code (handler coroutine, request callbacks) in harness/props/c18.py"]
-    assumptions = ["transport's shutdown() closes the socket before yielding (true of udp6): no datagram reaches dispatch_message after shutdown began",
-                   "Context.shutdown is called once", "handlers and request callbacks supplied by the application do not themselves raise"]
+    assumptions = ["transport's shutdown() closes the socket before yielding (true of udp6, udp6.py:484-489): no datagram reaches dispatch_message after shutdown began; "
+                   "if one did, the None tables raise TypeError, a ping is still answered with RST and a stored ACK re-sent (validated by the outofscope stream, not a finding: other transports are not anchored)",
+                   "Context.shutdown is called once (a second call raises AttributeError from MessageManager.shutdown: application misuse, validated by the outofscope stream)",
+                   "handlers and request callbacks supplied by the application do not themselves raise",
+                   "request labels are distinct and fewer than 2^64 tokens are drawn (wf_history)",
+                   "the application does not cancel a request while its remote is still being looked up (not modelled, never generated)"]
 
     # ------------------------------------------------------------------ generation
     def gen_cases(self, tier, rng, n):
@@ -727,8 +772,19 @@ class C18(fw.Property):
         for k in range(len(TWO_TEMPLATE) + 1):
             for x in ("C", "S"):
                 yield "twoctx", {"who": x, "position": k, "events": TWO_TEMPLATE[:k] + [["shutdown", x]] + TWO_TEMPLATE[k:]}; count += 1
-        if tier == "thorough":
-            for _ in range(600):
+        # events outside the property's scope, to validate what the model (and notes) say about them: datagrams reaching
+        # dispatch_message after shutdown (kinds for which no exception has to be propagated through further model code) and a
+        # second Context.shutdown()
+        for name in TEMPLATES:
+            T = TEMPLATES[name]
+            for k in ([len(T) // 2, len(T)] if tier == "quick" else range(len(T) + 1)):
+                late = [rng.choice([["recv", "p1", CON, GET, 900 + j, rng.choice([7, 77]), None], ["recv", "p2", NON, GET, 950 + j, 8, 0],
+                                    ["recv", "p1", CON, 0, 970 + j, 0, None], ["recv", "p1", NON, CONTENT, 980 + j, rng.choice([1, 2, 99]), rng.choice([None, 9])]] +
+                                   [e for e in T if e[0] == "recv" and 1 <= e[3] < 32]) for j in range(4)]
+                evs = T[:k] + [["shutdown"]] + late[:2] + [["fire"], ["shutdown"], ["fire"]] + late[2:] + [["fire"]] * 6 + [["adv", 300_000_000]]
+                yield "outofscope", {"uniform": 2_000_000, "mid0": 0, "tok0": 0, "template": name, "position": k, "events": evs}; count += 1
+        for _ in range(40 if tier == "quick" else 600):
+            if True:
                 evs = [[e] for e in ("get_big", "put_sink", "observe", "get_slow") if rng.random() < 0.8]
                 rng.shuffle(evs)
                 for _ in range(rng.randint(0, 60)):
@@ -744,6 +800,9 @@ class C18(fw.Property):
             finally:
                 w.close()
             yield "script", dict(base, events=w.events); count += 1
+            if rng.random() < 0.15:      # the same history with a transport that never finishes closing (oracle only)
+                i = w.events.index(["shutdown"])
+                yield "hung", dict(base, hang=True, events=w.events[:i + 1] + [["adv", 2_999_999], ["adv", 1]] + w.events[i + 1:]); count += 1
 
     # ------------------------------------------------------------------ implementation
     def impl(self, stream, inp):
@@ -776,7 +835,7 @@ class C18(fw.Property):
 
     # ------------------------------------------------------------------ model
     def model(self, stream, inp):
-        if stream != "script": return None
+        if stream not in ("script", "outofscope"): return None
         evs = glist([g_event(e) for e in inp["events"]])
         return ("let r := run (init %s %s %s) %s in let f := advance_to ADVANCE_FUEL (fst r) (Z.max (now (mm (fst r)) + 300000000) 400000000) in "
                 "(snd r, snd f, Z.of_nat (List.length (pending (mm (fst f)))), run_orphans (init %s %s %s) %s)") % (
@@ -789,6 +848,8 @@ class C18(fw.Property):
     # ------------------------------------------------------------------ oracle
     def oracle(self, stream, inp, res):
         if "harness_exception" in res: return ("C18:crash:" + res["where"], "implementation raised %s: %s" % (res["harness_exception"], res.get("text")))
+        if stream == "outofscope":
+            return None      # events the property does not quantify over (see rule): only the model's account of them is compared
         if stream == "twoctx":
             x = inp["who"]; a = res["at_return"]; f = res["final"]
             if x not in a["shutdown_returned"]: return ("C18:shutdown-not-completed", "Context.shutdown of %s did not return" % x)
@@ -821,9 +882,11 @@ class C18(fw.Property):
                 if res["shutdown_took_us"] is None or res["shutdown_took_us"] > 3_000_000:
                     return ("C18:shutdown-exceeds-timeout", "Context.shutdown took %r us with a transport that does not close" % res["shutdown_took_us"])
             elif kret != k: return ("C18:shutdown-not-completed", "Context.shutdown did not return at once although the transport closes promptly: %r" % steps[k])
-        done = {}; obsdone = {}; observe = {}; submitted_at = {}
+        done = {}; obsdone = {}; observe = {}; submitted_at = {}; slow = {}; lookup_pending = None
         for i, (ev, out) in enumerate(zip(evs, steps)):
-            if ev[0] == "req": observe[ev[1]] = ev[4]; submitted_at[ev[1]] = i
+            if ev[0] in ("req", "reqslow"): observe[ev[1]] = ev[4]; submitted_at[ev[1]] = i
+            if ev[0] == "reqslow": slow[ev[1]] = None
+            if ev[0] == "resolve" and ev[1] in slow and slow[ev[1]] is None: slow[ev[1]] = i
             for o in out:
                 if o[0] == "exc":
                     if k is not None and i >= k: return ("C18:exception-after-shutdown:" + o[1], "step %d (%r) after shutdown raised %s" % (i, ev, o[1]))
@@ -838,7 +901,7 @@ class C18(fw.Property):
                     if o[0] in ("resp", "notif", "hstart"): return ("C18:activity-after-shutdown", "step %d (%r): %r" % (i, ev, o))
                 if k is not None and i == k and o[0] == "running_after_shutdown":
                     return ("C18:handler-not-cancelled", "handler %d still running after shutdown" % o[1])
-            if k is not None and i > kret and ev[0] == "req":
+            if k is not None and i > kret and (ev[0] == "req" or (ev[0] == "resolve" and slow.get(ev[1]) == i)):
                 q = ev[1]
                 got = [o for o in out if o[0] == "fail" and o[1] == q]
                 if not got: return ("C18:late-request-hangs", "request %d submitted after shutdown did not fail at once: %r" % (q, out))
@@ -846,6 +909,10 @@ class C18(fw.Property):
         if k is None: return None
         for q, i in submitted_at.items():
             if i > k: continue
+            if q in slow and (slow[q] is None or slow[q] > kret) and (q not in done or done[q][0] > kret):
+                # still inside Context.request's remote lookup when shutdown returned: in no table, not failed (listed finding); judged last
+                lookup_pending = ("C18:resolving-request-left-hanging", "request %d (submitted at step %d) was still looking for its remote at shutdown; it has no outcome when shutdown returns" % (q, i))
+                continue
             if q not in done or done[q][0] > kret:
                 return ("C18:request-left-hanging", "request %d (submitted at step %d) has no outcome when shutdown returns" % (q, i))
             if observe[q] and (q not in obsdone or obsdone[q][0] > kret):
@@ -856,7 +923,7 @@ class C18(fw.Property):
         for o in res["late"]:
             if o[0] in ("send", "exc", "resp", "notif", "hstart"): return ("C18:late-" + o[0], "after the script, letting all timers run out: %r" % (o,))
         if res["timers_left"]: return ("C18:timers-left", "%d timers of the shut-down context are still pending 300 s later" % res["timers_left"])
-        return None
+        return lookup_pending
 
     def nontrivial(self, stream, inp, res):
         if stream == "twoctx":
